@@ -96,8 +96,7 @@ def make_stream(cfg, integration: str):
     return cls.for_rdflib(opts)
 
 
-class FramesChangedAfterYield(Exception):
-    """A frame object handed out by a frame generator was modified while later frames were produced."""
+from vlib.harness import FramesChanged as FramesChangedAfterYield  # noqa: E402
 
 
 def frames_to_bytes(frames, delimited: bool) -> bytes:
